@@ -363,7 +363,9 @@ class Engine:
                 continue
             work.extend(self.new_prefixes)
             self.stats["paths"] += 1
-            paths.append(Path(list(self.pc), outcome, list(self.path_obls), dict(self.ghost), list(self.decisions)))
+            pth = Path(list(self.pc), outcome, list(self.path_obls), dict(self.ghost), list(self.decisions))
+            pth.sheap = dict(self.sheap)
+            paths.append(pth)
             if len(paths) > max_paths:
                 raise Unsupported("path explosion (> %d paths)" % max_paths)
         return paths
@@ -544,6 +546,8 @@ class Engine:
             return self.branch(z3.Length(v.t) > 0)
         if isinstance(v, (type, types.FunctionType, types.ModuleType, enum.Enum, ExcVal, BoundMethod, Closure)):
             return True
+        if hasattr(v, "pyvc_truth"):
+            return v.pyvc_truth(self)
         raise Unsupported("truth of %r" % (v,))
 
     def as_int(self, v, what="operand"):
@@ -855,6 +859,8 @@ class Engine:
             return BuiltinMethod(obj, name)
         if isinstance(obj, Namespace):
             return obj.get(self, name)
+        if hasattr(obj, "pyvc_method"):
+            return BuiltinMethod(obj, name)
         raise Unsupported("getattr(%r, %s)" % (obj, name))
 
     def class_attr(self, obj, cls, name):
@@ -926,15 +932,27 @@ class Engine:
 
     def ex_Tuple(self, e, fr):
         out = []
+        parts = []
         for x in e.elts:
             if isinstance(x, ast.Starred):
-                out.extend(self.iterate(self.eval(x.value, fr)))
+                v = self.eval(x.value, fr)
+                if isinstance(v, SSeq) and not isinstance(v.length, int):
+                    parts.append(("seq", v))
+                    continue
+                items = self.iterate(v)
+                out.extend(items)
+                parts.extend(("item", it) for it in items)
             else:
-                out.append(self.eval(x, fr))
+                v = self.eval(x, fr)
+                out.append(v)
+                parts.append(("item", v))
+        if any(k == "seq" for k, _ in parts):
+            return ConcatList(parts)
         return tuple(out)
 
     def ex_List(self, e, fr):
-        return list(self.ex_Tuple(e, fr))
+        r = self.ex_Tuple(e, fr)
+        return r if isinstance(r, ConcatList) else list(r)
 
     def ex_Dict(self, e, fr):
         d = {}
@@ -1116,6 +1134,32 @@ class SliceV:
 class Generator:
     def __init__(self, items):
         self.items = items
+
+
+class ConcatList(SSeq):
+    """[a, b, *symbolic_seq, ...]: list display containing a sequence of symbolic length (iterable only under a loop contract)"""
+
+    def __init__(self, parts):
+        n = 0
+        for k, v in parts:
+            n = n + (1 if k == "item" else to_z3int(v.length))
+        SSeq.__init__(self, "list", z3.simplify(n) if not isinstance(n, int) else n, None)
+        self.parts = parts
+
+    def elem(self, E, i):
+        """element at symbolic index i (forks over the parts)"""
+        off = 0
+        for k, v in self.parts:
+            if k == "item":
+                if E.branch(i == off):
+                    return v
+                off = off + 1
+            else:
+                ln = to_z3int(v.length)
+                if E.branch(z3.And(i >= off, i < off + ln)):
+                    return v.get(z3.simplify(i - off))
+                off = off + ln
+        raise Infeasible()
 
 
 class SRange:
